@@ -36,8 +36,9 @@ def run(ctx, model_ok):
                             "bhjmCylSegInternal returns a value). Cuboid: the edge mask is proved to cover the zero set of all 24 logarithm factors "
                             "CylinderSegment: the dispatch is total for every observer the wrapper lets through (`wrapper_never_dispatches_unhandled`, full strength after the repair of the surface masks; hypothesis |r1| <= |r2|); the NaN rows are characterised exactly (`cylseg_nan_rows_characterised`); definedness of the individual closed forms (divisors, log / atanh arguments) off their special sets is not shown (observers a relative 1e-9 off a base plane can return NaN: reported). Cuboid: the edge mask is proved to cover the zero set of all 24 logarithm factors "
                             "(`cuboid_defined_off_edges`), arctan2(0,0) is proved to occur exactly on the three edge lines incl. their extensions, where the general branch IS reached "
-                            "(`cuboid_edge_extension_reaches_general`; harmless in IEEE arithmetic, probed); Triangle: defined off the closed edges EXCEPT on a spherical cap inside the branch-switch cone "
-                            "(`triangle_defined_off_edges`, `triangle_cap_singular`; recorded finding near-vertex); Polyline: `polyline_masks_cover_singular`; "
+                            "(`cuboid_edge_extension_reaches_general`; harmless in IEEE arithmetic, probed); Triangle (repaired edge integral): defined off the closed edges without exception "
+                            "(`triangle_defined_off_edges`; the on-edge branch is taken exactly on the edges, `triangle_on_edge_branch_iff`; zero-area mask `triangle_zero_area`; "
+                            "the oracle asserts finiteness and 1e-6 accuracy against an extended-precision closed form close to the edge lines); Polyline: `polyline_masks_cover_singular`; "
                             "Tetrahedron / TriangularMesh: per face as Triangle, the barycentric division by det (tetraInside) is not shown non-zero here; Cylinder (ported, single-row path): the near-axis Taylor branch r/r0 < 0.05 is proved to "
                             "divide by positive numbers only and to need no elliptic integral (`cylinder_axis_branch_defined`); every cel0 call of both kernels is proved to have a "
                             "non-zero modulus off the masked edge and to return, hence BHJM_magnet_cylinder returns for every input with d > 0, h >= 0 (`cylinder_terminates`); "
